@@ -9,7 +9,7 @@ default never changes (frame); _default_value/_read_only are written only in Inp
 import z3
 
 from pyvc import sorts as S
-from pyvc.sorts import SV, INT, STR, REF, SEQ, MAP
+from pyvc.sorts import SV, INT, STR, REF, SEQ, MAP, Ty
 from pyvc.engine import mk_bool, mk_none
 
 
@@ -207,13 +207,19 @@ def load(reg):
     # = stable sort of the entries by InputParameter.__lt__ (display priority)
     reg.trust("sorted(items, key=...) is a stable sort by '<' of the keys (InputParameter.__lt__ = display priority); "
               "dict comprehension over it rebuilds the dict in that order")
-    EXPECT = "{k: v for (k, v) in sorted(self._value.items(), key=lambda item: item[1])}"
-
-    def dictcomp(eng, node, st):
+    # recognised by shape, not by the names of the temporaries:  sorted(self._value.items(), key=lambda <p>: <p>[1])  and
+    # {<a>: <b> for <a>, <b> in <that call, or a local bound to it>}
+    def is_resort_call(n):
         import ast
-        if ast.unparse(node).replace("(k, v)", "k, v") != EXPECT.replace("(k, v)", "k, v"):
-            from pyvc.engine import Unsupported
-            raise Unsupported("dict comprehension other than the stable re-sort of self._value")
+        if not (isinstance(n, ast.Call) and isinstance(n.func, ast.Name) and n.func.id == "sorted" and len(n.args) == 1
+                and ast.unparse(n.args[0]) == "self._value.items()" and len(n.keywords) == 1 and n.keywords[0].arg == "key"):
+            return False
+        lam = n.keywords[0].value
+        return (isinstance(lam, ast.Lambda) and len(lam.args.args) == 1 and isinstance(lam.body, ast.Subscript)
+                and isinstance(lam.body.value, ast.Name) and lam.body.value.id == lam.args.args[0].arg
+                and isinstance(lam.body.slice, ast.Constant) and lam.body.slice.value == 1)
+
+    def resorted(eng, st):
         selfv = st.env["self"]
         m = eng.load_field(st, selfv.t, "InputParameterMap", "_value")
         keys, vals = eng.map_keys(m), eng.map_vals(m)
@@ -231,7 +237,31 @@ def load(reg):
                                                z3.And(z3.Implies(prio(a) < prio(b), idx(nk, a) < idx(nk, b)),
                                                       z3.Implies(z3.And(prio(a) == prio(b), idx(keys, a) < idx(keys, b)),
                                                                  idx(nk, a) < idx(nk, b))))))
-        return [(st, eng.map_mk(m.ty, nk, vals))]
+        return eng.map_mk(m.ty, nk, vals)
+
+    def sorted_call(eng, node, st):
+        from pyvc.engine import Unsupported
+        if not is_resort_call(node):
+            raise Unsupported("sorted(...) other than the stable re-sort of self._value.items() by the item's value")
+        # the sorted item list as an opaque value that remembers the re-sorted map it stands for
+        return [(st, SV(Ty("sorteditems"), S.fresh("sorted_items", z3.IntSort()), const=("sorted_items", resorted(eng, st))))]
+    reg.specfun("callhook_sorted", sorted_call)
+
+    def dictcomp(eng, node, st):
+        import ast
+        from pyvc.engine import Unsupported
+        g = node.generators[0] if len(node.generators) == 1 else None
+        ok = (g is not None and not g.ifs and not g.is_async and isinstance(g.target, ast.Tuple) and len(g.target.elts) == 2
+              and all(isinstance(e, ast.Name) for e in g.target.elts) and isinstance(node.key, ast.Name)
+              and isinstance(node.value, ast.Name) and [node.key.id, node.value.id] == [e.id for e in g.target.elts])
+        if ok and is_resort_call(g.iter):
+            return [(st, resorted(eng, st))]
+        if ok and isinstance(g.iter, ast.Name) and g.iter.id in st.env:
+            v = st.env[g.iter.id]
+            org = getattr(v, "const", None)
+            if v.ty.kind == "sorteditems" and isinstance(org, tuple) and org[0] == "sorted_items":
+                return [(st, org[1])]
+        raise Unsupported("dict comprehension other than the stable re-sort of self._value")
     reg.specfun("dictcomp_hook", dictcomp)
 
     # lookup by dotted key: recursive definition over the heap-held maps, as an uninterpreted function
